@@ -1,4 +1,4 @@
-#!/usr/bin/env python3
+#!/opt/veriftools/pyvenv/bin/python3
 """Regenerates MANIFEST.json from tools/manifest_src.json (checks) + properties.jsonl (not_applicable for
 everything not yet claimed) and validates it and every evidence file against the schemas."""
 import json, sys, os, subprocess
